@@ -62,6 +62,9 @@ type Universe struct {
 	// Gate, if set, is called outside the simulator lock at the entry of every SyncPropose, SyncRead and
 	// StaleRead; the harness may park the calling goroutine there (token hand-over point).
 	Gate func(kind, raftAddress string, shardID uint64, payload any)
+	// Yield, if set, is called outside the simulator lock at the entry of every SyncPropose, SyncRead and
+	// StaleRead: where the real library would make the caller wait, the harness may let another goroutine run.
+	Yield func()
 	// CutPermille: probability (keyed per replica and index) that an apply batch is cut after an entry.
 	CutPermille uint64
 	// OnEvent, if set, receives a description of every simulator decision (for run digests).
